@@ -111,7 +111,7 @@ def run(c):
     for (mode, vt), o in zip(jobs, outs):
         recs = validate(o, "%s-%s" % (mode, vt), mode, chunk=400)
         for r in recs:
-            if r.get("k") in ("ref", "cgopt", "minres", "term", "delta"):
+            if r.get("k") in ("ref", "cgopt", "minres", "term", "delta", "afterbrk"):
                 c.nontrivial.add((r["k"], vt, r.get("id"), r.get("method"), r.get("side")))
         if mode == "ref":
             rr = [r for r in recs if r.get("k") == "ref" and r.get("err")]
